@@ -184,6 +184,24 @@ class Driver:
         isq = [True, True, True, True, False, True, False, False]
         return [[fr(x) if q_ else x for x in s] for s, q_ in zip(g, isq)]
 
+    def qtimes(self, ts):
+        """plural getters with an explicit (possibly unordered) list of times: all must answer, or all must refuse alike"""
+        m = self.m
+        getters = [(m.get_mid_prices, True), (m.get_last_executed_prices, True), (m.get_executed_volumes, False),
+                   (m.get_executed_total_prices, True), (m.get_n_buy_orders, False), (m.get_n_sell_orders, False)]
+        out, errs = [], []
+        for g, q_ in getters:
+            try:
+                v = g(ts)
+                out.append([fr(x) if q_ else x for x in v])
+            except Exception as e:  # noqa
+                errs.append(exc_to_E(e))
+        if errs:
+            if len(errs) == len(getters) and all(x == errs[0] for x in errs):
+                return errs[0]
+            return [E(18, "getters disagree")] + out
+        return out
+
     # ---- ops
     def do(self, op):
         m = self.m
@@ -222,6 +240,8 @@ class Driver:
                 return self.qat(op[1])
             if k == "qseries":
                 return self.qseries()
+            if k == "qtimes":
+                return self.qtimes(list(op[1]))
         except Exception as e:  # noqa
             return exc_to_E(e)
         raise ValueError(op)
@@ -279,6 +299,8 @@ def op_lit(op, add_ids):
         return f"QAt {zlit(op[1])}"
     if k == "qseries":
         return "QSeries"
+    if k == "qtimes":
+        return "QTimes [" + "; ".join(zlit(t) for t in op[1]) + "]"
     raise ValueError(op)
 
 
@@ -453,6 +475,12 @@ def gen_history(rng, n_ops, mode=None):
             ops.append(("qat", rng.randint(0, time + 3)))
         elif r < 0.11:
             ops.append(("qseries",))
+        elif r < 0.16:
+            # an explicit list of times: in order, out of order, with a future time first / last / in the middle
+            ts = [rng.randint(0, time) for _ in range(rng.randint(1, 4))]
+            if rng.random() < 0.5:
+                ts.insert(rng.randint(0, len(ts)), time + rng.randint(1, 3))
+            ops.append(("qtimes", tuple(ts)))
 
     while mutating < n_ops:
         r = rng.random()
@@ -626,7 +654,7 @@ class SuiteM(engine.Suite):
         if k in ("cancel", "resubmit", "cancel_foreign", "cancel_unsubmitted"):
             return ["C04"]
         if k == "tick":
-            return ["C04"]
+            return ["C04", "C10"]
         if k == "exec":
             own = ["C01", "C02", "C03", "C04"]
             return own
@@ -640,7 +668,7 @@ class SuiteM(engine.Suite):
             if sub is None:
                 return ["C02", "C04", "C06", "C08"]
             return ["C08"]
-        if k in ("qat", "qseries"):
+        if k in ("qat", "qseries", "qtimes"):
             return ["C06", "C08"]
         return None
 
